@@ -5,7 +5,7 @@ CONSTANTS
   MaxRxns = 3
   GridSeq <- G_Four
   StateModes <- M_Pat
-  Patterns <- P_Few
+  Patterns <- P_One
   Extents <- X_Zero
   Deltas <- D_Few
   Factors <- F_Few
@@ -13,7 +13,7 @@ CONSTANTS
   PertKinds <- K_Two
   NumSyss <- N_Lin
   RrefFlags <- FL_Plain
-  Options <- O_Default
+  Options <- O_Written
   MaxEvals = 1
 INVARIANT TypeOK
 INVARIANT BackwardConstructionIsEquilibrium
